@@ -28,34 +28,87 @@ def pick_keys():
                     return [k0, k1, k2, k3]
 KEYS = pick_keys()
 KD = ["KEY%d=%dULL" % (i, k) for i, k in enumerate(KEYS)]
-OPS = {"insert": 0, "find": 1, "remove": 2, "find_or_insert_handle": 3, "for_all": 4, "fini": 5, "init": 6, "lock_nolock_ops_unlock": 7}
+OPS = {"insert": 0, "find": 1, "remove": 2, "find_or_insert_handle": 3, "for_all": 4, "fini": 5, "init": 6, "lock_nolock_ops_unlock": 7, "hash": 8}
+SHAPES = ["T0", "T1_old0unlinked", "T1_old0", "T2_unlinked", "T2_old0", "T2_old1", "T2_old0_old1"]
 UF = {"parsec_atomic_lock": 2, "parsec_atomic_rwlock_rdlock": 2, "parsec_atomic_rwlock_wrlock": 2,
       "parsec_hash_table_nolock_find_handle": 5, "parsec_hash_table_nolock_remove_handle": 5,
       "parsec_hash_table_nolock_find_in_old_tables": 5, "parsec_hash_table_nolock_remove_from_old_tables": 5,
-      "scan_bucket": 6}
+      "scan_bucket": 5}
+# the definition of the real hash is renamed; hi.c routes the calls through a memo of it (see hi.c)
+MEMO = [(U, r"^static uint64_t parsec_hash_table_universal_rehash\(", "static uint64_t vp_real_universal_rehash(")]
+FUNCS = ["parsec_hash_table_init", "insert_impl", "find", "remove", "lock_bucket(_handle)", "nolock_find(_handle)", "nolock_insert(_handle)", "nolock_remove(_handle)",
+         "unlock_bucket(_handle)_impl", "resize", "nolock_find_in_old_tables", "nolock_remove_from_old_tables", "for_all", "fini", "universal_rehash",
+         "parsec_atomic_rwlock_* (real, linked)"]
+STUBS = ["parsec_output_verbose (empty)", "mca param registration (returns PARSEC_ERROR)", "malloc/free = static typed pools, one head + one bucket array per level",
+         "calls of parsec_hash_table_universal_rehash go through a memo of the REAL function on the domain 4 keys x nb_bits 1..3 (filled by running the real function; query ind_hash checks memo = real and the range of the real function for every 64-bit key)"]
 
+SCEN = {1: ("insert_resize_vs_find_remove", "L0={k0}, hint 1; T0 insert(k1) -> resize || T1 find(k0); remove(k0)"),
+        2: ("migrate_vs_remove_same_old_bucket", "old L0={k0,k2}, top L1 empty; T0 find(k0) (migrates) || T1 remove(k2)"),
+        3: ("insert_vs_insert_resize", "empty, hint 0; T0 insert(k0) || T1 insert(k1): racing resizes"),
+        4: ("find_oldest_vs_remove_middle", "L0={k0}, L1={k1}, top L2; T0 find(k0) || T1 remove(k1) (unlinks L1 under the finder)"),
+        5: ("find_or_insert_same_key", "empty, hint 0; both threads lock_bucket_handle/find/insert-if-absent/unlock on ONE key with their own element"),
+        6: ("remove_vs_remove_same_key", "old L0={k0,k2}; T0 remove(k0) || T1 remove(k0); find(k2)"),
+        7: ("colliding_inserts_resize", "L0={k0}, hint 1; T0 insert(k1) || T1 insert(k2); find(k0)")}
 def queries(ctx):
     qs = []
-    def ind(name, extra=(), tiers=("quick", "thorough"), checks=()):
-        qs.append(Q("ind_" + name + ("_mem" if checks else ""), ["hi.c", "repo:" + RW], defs=KD + ["OP=%d" % OPS.get(name, 1)] + list(extra), unwind=9, unwind_fn=UF,
-                    units=[U, "parsec/class/parsec_hash_table.h"], checks=list(checks), object_bits=12, timeout=1500, tiers=tiers,
-                    info={"symbolic": ["pre-state: top level T in 0..2, which old levels are linked, per key absent / level where stored, order inside buckets, max_collisions_hint 0..2, rwlock ticket counters",
+    def ind(name, shape=None, extra=(), tiers=("quick", "thorough"), checks=(), timeout=1500, unwindset=()):
+        qn = "ind_" + name + ("_" + SHAPES[shape] if shape is not None else "")
+        qs.append(Q(qn, ["hi.c", "repo:" + RW], defs=KD + ["VP_MEMO_HASH=1", "OP=%d" % OPS.get(name, 1)] + (["SHAPE=%d" % shape] if shape is not None else []) + list(extra),
+                    unwind=9, unwind_fn=UF, unwindset=list(unwindset), patches=MEMO, extra_cbmc=["--slice-formula"],
+                    units=[U, "parsec/class/parsec_hash_table.h"], checks=list(checks), object_bits=12, timeout=timeout, tiers=tiers,
+                    info={"symbolic": ["pre-state: per key absent / level where stored, order inside buckets, max_collisions_hint 0..2, rwlock ticket counters, warning flag"
+                                       + ("" if shape is not None else ", table shape (top level 0..2, which old levels are linked)"),
                                        "which of the 4 keys is operated on"],
-                          "enumerated": ["operation kind = %s" % name, "4 concrete keys %s (collide at 1 bit, split at 2 and 3 bits)" % KEYS],
+                          "enumerated": ["operation kind = %s" % name, "4 concrete keys %s (collide at 1 bit, split at 2 and 3 bits)" % KEYS]
+                                        + (["table shape = %s (one query per shape: 7 shapes)" % SHAPES[shape]] if shape is not None else []),
                           "bounds": {"levels": 3, "keys": 4, "max_table_nb_bits": 4},
-                          "functions": ["parsec_hash_table_init", "insert_impl", "find", "remove", "lock_bucket(_handle)", "nolock_find(_handle)", "nolock_insert(_handle)", "nolock_remove(_handle)",
-                                        "unlock_bucket(_handle)_impl", "resize", "nolock_find_in_old_tables", "nolock_remove_from_old_tables", "for_all", "fini", "universal_rehash",
-                                        "parsec_atomic_rwlock_* (real, linked)"],
-                          "stubs": ["parsec_output_verbose (empty)", "mca param registration (returns PARSEC_ERROR)", "malloc/free = static typed pools, one head + one bucket array per level"]}))
-    ind("selfcheck", ["SELFCHECK=1"])
-    for name in ("init", "insert", "find", "remove", "find_or_insert_handle", "lock_nolock_ops_unlock", "for_all", "fini"):
+                          "functions": FUNCS, "stubs": STUBS}))
+    ind("selfcheck", extra=["SELFCHECK=1"])
+    ind("hash", extra=["NBMAX=24"], unwindset=["main.0:25"])
+    for name in ("init", "for_all", "fini"):
         ind(name)
+    for name in ("insert", "find", "remove", "find_or_insert_handle", "lock_nolock_ops_unlock"):
+        for sh in range(7):
+            ind(name, sh)
+    # ---- concurrent half (Engine S)
+    def conc(sc, R, tiers, keys=None, extra=(), timeout=3000):
+        name, what = SCEN[sc]
+        kd = ["KEY%d=%dULL" % (i, k) for i, k in enumerate(keys or KEYS)]
+        qs.append(Q("conc_%s_r%d" % (name, R), [], defs=kd + ["VP_MEMO_HASH=1", "SCEN=%d" % sc] + list(extra), engine="S", patches=MEMO,
+                    units=[U, "parsec/class/parsec_hash_table.h", RW],
+                    gen=seqir(["hc.c", "repo:" + RW], threads=["thread0", "thread1"], rounds=R, drain=True, benign=["nanosleep"], thread_unwind=9),
+                    unwind=9, object_bits=12, timeout=timeout, tiers=tiers, slow=True,
+                    info={"symbolic": ["schedule: every SC interleaving with <= %d scheduling slots per thread, then deterministic drain (both threads must complete)" % R],
+                          "enumerated": ["scenario: " + what, "keys %s" % (keys or KEYS)],
+                          "bounds": {"threads": 2, "rounds": R, "levels": 3},
+                          "functions": FUNCS + ["key_functions.* are indirect calls: atomic"], "stubs": STUBS + ["nanosleep (benign, elided)"]}))
+    conc(2, 2, ("quick", "thorough"))
+    conc(4, 2, ("quick", "thorough"))
+    for sc in (1, 3, 5, 6, 7):
+        conc(sc, 2, ("thorough",), keys=(KEYS[:3] + [KEYS[0]]) if sc == 5 else None)
+    for sc in (1, 2, 3, 4, 5, 6, 7):
+        conc(sc, 3, ("thorough",), keys=(KEYS[:3] + [KEYS[0]]) if sc == 5 else None)
     return qs
 def mutants(ctx):
     return [
-      Mutant("migration_forgets_cur_len", U, "                current_item->next_item = NULL;\n                res = --(head->buckets[hash].cur_len);", "                current_item->next_item = NULL;\n                res = (head->buckets[hash].cur_len);"),
-      Mutant("remove_prev_not_advanced", U, "            return BASEADDROF(current_item, ht);\n        }\n        prev_item = current_item;\n    }\n    return parsec_hash_table_nolock_remove_from_old_tables(ht, handle->key);", "            return BASEADDROF(current_item, ht);\n        }\n        if(NULL == prev_item) prev_item = current_item;\n    }\n    return parsec_hash_table_nolock_remove_from_old_tables(ht, handle->key);"),
-      Mutant("old_table_unlink_skips", U, "                if( 0 == res ) {\n                    res = parsec_atomic_fetch_dec_int32(&head->used_buckets);\n                    if( 1 == res ) {\n                        parsec_atomic_cas_ptr(&prev_head->next, head, head->next);\n                    }\n                }\n                parsec_hash_table_nolock_insert(ht, current_item);", "                if( 0 == res ) {\n                    res = parsec_atomic_fetch_dec_int32(&head->used_buckets);\n                }\n                parsec_hash_table_nolock_insert(ht, current_item);"),
-      Mutant("find_old_tables_stops_at_first", U, "        parsec_atomic_unlock( &head->buckets[hash].lock );\n        prev_head = head;\n    }\n    return NULL;\n}\n#endif", "        parsec_atomic_unlock( &head->buckets[hash].lock );\n        prev_head = head; break;\n    }\n    return NULL;\n}\n#endif"),
+      Mutant("migration_forgets_cur_len", U, "                current_item->next_item = NULL;\n                res = --(head->buckets[hash].cur_len);", "                current_item->next_item = NULL;\n                res = (head->buckets[hash].cur_len);",
+             queries=["ind_find_T1_old0"]),
+      Mutant("find_old_prev_head_not_advanced", U, "        parsec_atomic_unlock( &head->buckets[hash].lock );\n        prev_head = head;\n    }\n    return NULL;\n}\n#endif", "        parsec_atomic_unlock( &head->buckets[hash].lock );\n    }\n    return NULL;\n}\n#endif",
+             queries=["ind_find_T2_old0_old1"]),
+      Mutant("old_table_unlink_skips", U, "                if( 0 == res ) {\n                    res = parsec_atomic_fetch_dec_int32(&head->used_buckets);\n                    if( 1 == res ) {\n                        parsec_atomic_cas_ptr(&prev_head->next, head, head->next);\n                    }\n                }\n                parsec_hash_table_nolock_insert(ht, current_item);", "                if( 0 == res ) {\n                    res = parsec_atomic_fetch_dec_int32(&head->used_buckets);\n                }\n                parsec_hash_table_nolock_insert(ht, current_item);",
+             queries=["ind_find_T1_old0"]),
+      Mutant("find_old_tables_stops_at_first", U, "        parsec_atomic_unlock( &head->buckets[hash].lock );\n        prev_head = head;\n    }\n    return NULL;\n}\n#endif", "        parsec_atomic_unlock( &head->buckets[hash].lock );\n        prev_head = head; break;\n    }\n    return NULL;\n}\n#endif",
+             queries=["ind_find_T2_old0_old1"]),
+      Mutant("remove_old_unlinks_one_early", U, "                    res = parsec_atomic_fetch_dec_int32(&head->used_buckets);\n                    if( 1 == res ) {\n                        parsec_atomic_cas_ptr(&prev_head->next, head, head->next);\n                    }\n                }\n                parsec_atomic_unlock(&head->buckets[hash].lock );\n                return BASEADDROF(current_item, ht);",
+             "                    res = parsec_atomic_fetch_dec_int32(&head->used_buckets);\n                    if( 2 >= res ) {\n                        parsec_atomic_cas_ptr(&prev_head->next, head, head->next);\n                    }\n                }\n                parsec_atomic_unlock(&head->buckets[hash].lock );\n                return BASEADDROF(current_item, ht);",
+             queries=["ind_remove_T1_old0"]),
+      Mutant("remove_top_forgets_cur_len", U, "            --(ht->rw_hash->buckets[hash].cur_len);\n", "            ;\n", queries=["ind_remove_T0"]),
+      Mutant("remove_middle_unlinks_wrong", U, "            } else {\n                prev_item->next_item = current_item->next_item;\n            }\n            --(ht->rw_hash->buckets[hash].cur_len);", "            } else {\n                prev_item->next_item = NULL;\n            }\n            --(ht->rw_hash->buckets[hash].cur_len);", queries=["ind_remove_T0"]),
+      Mutant("resize_forgets_used_buckets", U, "    old_head->used_buckets = used_buckets;\n", "    (void)used_buckets;\n", queries=["ind_insert_T0"]),
+      Mutant("insert_resize_off_by_one", U, "    parsec_hash_table_nolock_insert(ht, item);\n    if( ht->rw_hash->buckets[hash].cur_len > ht->max_collisions_hint ) {", "    parsec_hash_table_nolock_insert(ht, item);\n    if( ht->rw_hash->buckets[hash].cur_len >= ht->max_collisions_hint ) {", queries=["ind_insert_T0"]),
+      Mutant("unlock_handle_resize_ignores_limit", U, "    if( ht->rw_hash->buckets[hash].cur_len > ht->max_collisions_hint ) {\n        if( (int)ht->rw_hash->nb_bits + 1 < ht->max_table_nb_bits )\n            resize = 1;\n        else {\n            if( !ht->warning_issued ) {\n                parsec_warning(\"%s:%d -- Hash table has %d collisions in bucket %lu, but it already spans over %lu buckets. Performance might get very bad if more elements continue to stack in this bucket. Consider allowing larger resize with the MCA parameter parsec_hash_table_max_table_nb_bits\",\n                               file, line, ht->rw_hash->buckets[hash].cur_len, hash, (1UL<<ht->rw_hash->nb_bits));\n                ht->warning_issued = 1;\n            }\n        }\n    }\n    cur_head = ht->rw_hash;",
+             "    if( ht->rw_hash->buckets[hash].cur_len > ht->max_collisions_hint ) {\n            resize = 1;\n    }\n    cur_head = ht->rw_hash;", queries=["ind_find_or_insert_handle_T2_unlinked"]),
+      Mutant("for_all_skips_old_tables", U, "    for( head = ht->rw_hash; NULL != head; head = head->next ) {\n        for( size_t i = 0; i < (1ULL<<head->nb_bits); i++ ) {\n            current_item = head->buckets[i].first_item;", "    for( head = ht->rw_hash; NULL != head; head = NULL ) {\n        for( size_t i = 0; i < (1ULL<<head->nb_bits); i++ ) {\n            current_item = head->buckets[i].first_item;", queries=["ind_for_all"]),
+      Mutant("fini_follows_lookup_chain", U, "        next = head->next_to_free;\n        head->next_to_free = NULL;", "        next = head->next;\n        head->next_to_free = NULL;", queries=["ind_fini"]),
     ]
 CLAIMED = False
